@@ -19,7 +19,8 @@ Inductive tok :=
   | TStr (s : str)
   | TLen (l : xq)
   | TBits (b : bits)
-  | TRs (r : @rstr xq).
+  | TRs (r : @rstr xq)
+  | TBig (n : N).
 
 Inductive res := ROk (l : list tok) | RErr (e : err) | RPanic (s : nat) | RFuel | RInvalid.
 
@@ -41,7 +42,7 @@ Inductive op :=
   | OPartitions | OP2L (b : bits) | ORf (k : nat) | ORfNorm (k : nat) | OWrf (k : nat) | OKf (k : nat)
   | OCmpTopo (k : nat) | OCmpBranch (k : nat) (tips : bool) | ODm | ODmr | ODmStore
   | OToNewick | OToFmt (f : nformat) | OToNexus | OLayout | ORtNewick | ORtFmt (f : nformat)
-  | OTril (n i j : nat) | ORowvec (n k : nat)
+  | OTril (n i j : nat) | ORowvec (n k : nat) | OTrilN (i j : N) | ORowvecN (k : N)
   | OMSel (k : nat) | OMNew (taxa : list str) (vals : list xq) | OMWithSize (n : nat)
   | OMSetTaxa (taxa : list str) | OMGet (a b : str) | OMSet (a b : str) (v : xq) | OMTaxaIndex (a : str)
   | OMIter | OMIndexed | OMToMap | OMMin | OMMax | OMPhylip (sq : bool)
@@ -104,6 +105,13 @@ Fixpoint sep_by (sep : list tok) (l : list (list tok)) : list tok :=
   end.
 Definition t_set (items : list (list tok)) : list tok :=
   [TK Klbrace] ++ sep_by [TK Ksemi] items ++ [TK Krbrace].
+
+(* the same index functions over N, for indices far beyond what unary nat can carry
+   (lemmas/TrilN.v relates them to tril_idx / tril_inv) *)
+Definition tril_idxN (i j : N) : N :=
+  let '(i, j) := if (j <? i)%N then (i, j) else (j, i) in (((i - 1) * i) / 2 + j)%N.
+Definition tril_invN (k : N) : N * N :=
+  let p := ((N.sqrt (1 + 8 * k) - 1) / 2)%N in ((p + 1)%N, (k - p * (p + 1) / 2)%N).
 
 Definition fmt_of_nat (k : nat) : nformat :=
   match k with
@@ -311,6 +319,8 @@ Definition run_op (s : st) (o : op) : res * st :=
       end
   | OTril n i j => (ROk [TNat (tril_idx i j)], s)
   | ORowvec n k => (ROk [TNat (fst (tril_inv k)); TNat (snd (tril_inv k))], s)
+  | OTrilN i j => (ROk [TBig (tril_idxN i j)], s)
+  | ORowvecN k => (ROk [TBig (fst (tril_invN k)); TBig (snd (tril_invN k))], s)
   | OMSel k =>
       let ms := mats s ++ repeat empty_mat (S k - length (mats s)) in
       (ROk [], mkSt (trees s) (cur s) ms k)
